@@ -58,6 +58,15 @@ func c56(c *Ctx) {
 		c.MustFact(re, "error-reported-only-after-a-failed-lookup", NotNil(lerr))
 		c.ArgIs(re, 0, "reports-the-lookup-error", lerr)
 		c.Expect(DataDep(ExtractOf(func(v ssa.Value) bool { return v == lk.Value() }, 0))(us.Common().Args[0]), us, f, "emits-the-looked-up-state", "the emitted state is not the lookup's result")
+		// the pause is counted from the end of the resolution: every clock reading that feeds the next-resolution time is taken
+		// after the lookup returned (a reading taken before a slow lookup would let the next lookup start that much earlier)
+		nowCM := ValueCall(GlobalLoad(c.konst("internal/resolver/dns/internal", "TimeNowFunc")))
+		nNow := 0
+		for _, nc := range callsIn(f, nowCM) {
+			nNow++
+			c.Expect(instrDominates(lk, nc), nc, f, "clock-read-after-the-lookup", "the time from which the pause before the next lookup is counted is read before the lookup (a slow lookup shortens the minimum interval)")
+		}
+		c.Expect(nNow >= 2, nil, f, "clock-readings", "expected the success and the failure arm to read the clock")
 		q := pathQuery{Fn: f, Starts: []ssa.Instruction{lk}, Barrier: func(in ssa.Instruction) bool { return in == ssa.Instruction(timerSel) }, Target: func(in ssa.Instruction) bool { return in == ssa.Instruction(lk) }}
 		c.MustPass("timer-wait-between-lookups", q, lk)
 		upd := CallRes(Callee("resolver", "ClientConn.UpdateState"), 0)
